@@ -41,3 +41,24 @@ MANIFEST = dict(
               "correspondence (extracted OCaml vs the real Go host calls)",
     design_ref="DESIGN.md §4 C08",
 )
+
+_ERR = {str(2**64 - k) for k in (1, 2, 3, 4, 5, 6, 8, 9)}      # NONE WHAT OOB WHO FULL CORE LOW HUH  (CASH = 2^64-7 is named by the property)
+
+
+def ignore(m):
+    """The property names ONE result code: CASH (a call that would leave the caller below its threshold). Which of the other
+    refusal codes a refused call answers when several conditions fail (e.g. eject: WHO vs HUH, neutral/C08/round2_O) is not part
+    of it - C07 is the property about result codes. Ignored iff the transcripts are equal after mapping every refusal code other
+    than CASH in the result-register position of a step to one token: same balances, deferred transfers and CASH decisions."""
+    def canon(t):
+        steps = t.split(" ; ")
+        out = []
+        for st in steps:
+            f = st.split(" ", 1)
+            if f and f[0] in _ERR:
+                f[0] = "REFUSED"
+            out.append(" ".join(f))
+        return " ; ".join(out)
+    if m["impl"] != m["model"] and canon(m["impl"]) == canon(m["model"]):
+        return "only a refusal code other than CASH differs; every balance and deferred transfer equal"
+    return None
